@@ -276,3 +276,31 @@ where
         Ok(Self::new(transported.bin_receiver, transported.size))
     }
 }
+
+/// Verification hooks (add-only, compiled only with `--cfg remoc_verif`).
+#[cfg(remoc_verif)]
+#[allow(missing_docs, dead_code, clippy::all)]
+pub mod verif_hooks {
+    use super::*;
+
+    /// A receiver whose underlying channel has already delivered its last message: `current_buf`
+    /// holds what has not been handed to the reader yet, `expected` is the announced size
+    /// (`None`: size information already consumed).
+    pub fn receiver_from_parts<Codec>(
+        expected: Option<u64>, bytes_read: u64, current_buf: Option<DataBuf>,
+    ) -> Receiver<Codec> {
+        Receiver {
+            bin_receiver: Mutex::new(None),
+            size_info: Mutex::new(expected.map(SizeInfo::Determined)),
+            bytes_read,
+            current_buf,
+            state: ReceiverState::Idle,
+            eof_verified: false,
+        }
+    }
+
+    /// (bytes read, bytes still buffered, end of file verified)
+    pub fn receiver_state<Codec>(r: &Receiver<Codec>) -> (u64, Option<usize>, bool) {
+        (r.bytes_read, r.current_buf.as_ref().map(|b| b.remaining()), r.eof_verified)
+    }
+}
